@@ -186,7 +186,8 @@ def laguerre_der_seq(ns, alpha, x):
     """
     k = 1
     ns = list(ns)
-    out = np.zeros((len(ns), *x.shape), dtype=x.dtype)
+    # rows hold what the recurrence produces: floats, also for integer coordinates
+    out = np.zeros((len(ns), *x.shape), dtype=np.result_type(x, 1.0))
     low = sum(1 for n in ns if n < k)  # d^k/dx^k L_n = 0 for n < k; ns is ascending
     if low < len(ns):
         out[low:] = (-1)**k * laguerre_seq([n-k for n in ns[low:]], alpha+k, x)
